@@ -41,16 +41,16 @@ const (
 
 // childSpec describes one child resource of a scenario.
 type childSpec struct {
-	APIVersion string   `json:"apiVersion"`
-	Resource   string   `json:"resource"`
-	Kind       string   `json:"kind"`
-	Namespaced bool     `json:"namespaced"`
-	HasStatus  bool     `json:"hasStatus"`
-	Method     string   `json:"method"` // "" = no updateStrategy at all
-	Checks     []vs.M   `json:"checks,omitempty"`
+	APIVersion string `json:"apiVersion"`
+	Resource   string `json:"resource"`
+	Kind       string `json:"kind"`
+	Namespaced bool   `json:"namespaced"`
+	HasStatus  bool   `json:"hasStatus"`
+	Method     string `json:"method"` // "" = no updateStrategy at all
+	Checks     []vs.M `json:"checks,omitempty"`
 }
 
-func (c childSpec) group() string { g, _ := common.ParseAPIVersion(c.APIVersion); return g }
+func (c childSpec) group() string   { g, _ := common.ParseAPIVersion(c.APIVersion); return g }
 func (c childSpec) version() string { _, v := common.ParseAPIVersion(c.APIVersion); return v }
 
 // scfg is the controller configuration of a scenario (also written to the trace).
@@ -150,7 +150,9 @@ func (w *world) close() { w.sim.Close(); w.hook.Close() }
 // sortedRevLister lists ControllerRevisions in name order. The real lister iterates a Go map, and
 // which of two revisions with a duplicate claim keeps it depends on that order; fixing the order makes
 // a scenario replayable (the model processes revisions in the same order).
-type sortedRevLister struct{ mclisters.ControllerRevisionLister }
+type sortedRevLister struct {
+	mclisters.ControllerRevisionLister
+}
 
 type sortedRevNsLister struct {
 	mclisters.ControllerRevisionNamespaceLister
